@@ -47,3 +47,19 @@ Section Run.
     (if refs && lm_hanging_first m then run_hanging ls else ret) ;;
     loop (fun l => rstmts_run (l_id l) [] (lm_body m)) ls.
 End Run.
+
+(* erase_lanelet_network with remove_lanelet executed by parsed methods only (the loop over the lanelets calls
+   remove_lanelet, which calls the parsed remove_hanging_lanelet_members) *)
+Section EraseFull.
+  Variables (H : hprog) (rl : lmeth) (rs rt rx : rmeth).
+  Definition erun_full (e : estmt) : M := fun s =>
+    match e with
+    | ELoop KLanelet =>
+        loop (fun l s1 => run_lanelets_full H rs rt rl [current_lanelet l s1] (lm_default_refs rl) s1)
+             (n_lanelets (network s)) s
+    | _ => erun rl rs rt rx e s
+    end.
+  Fixpoint eruns_full (l : list estmt) : M :=
+    match l with [] => ret | e :: r => erun_full e ;; eruns_full r end.
+End EraseFull.
+
